@@ -389,6 +389,25 @@ def run_case(case):
         if pop.model_dump() != dump:
             M["C15"] = "a recorded generation changed after it was recorded"
             break
+    # C15 (b): the trend utilities on the real result: best of every generation in the task's direction; the last entry is the
+    # reported best solution (the result is self-consistent)
+    if "C15" not in M:
+        try:
+            from pyvolutionary.utils import best_agent_trend, best_agent_position, agent_trend
+            tr = best_agent_trend(res)
+            exp_tr = [(max if ismax else min)(a.cost for a in g) for g in gens]
+            if len(tr) != len(exp_tr) or not all(close(x, y) for x, y in zip(tr, exp_tr)):
+                M["C15"] = f"best_agent_trend {tr[:4]} is not the best cost of each recorded generation {exp_tr[:4]}"
+            elif not close(tr[-1], b.cost):
+                M["C15"] = f"best_agent_trend ends with {tr[-1]!r} but best_solution.cost is {b.cost!r}"
+            elif best_agent_position(res)[-1] != b.position and not any(a.position == b.position and close(a.cost, tr[-1]) for a in gens[-1]):
+                M["C15"] = "best_agent_position ends at a position that is not best_solution's"
+            else:
+                w = agent_trend(res, len(gens[-1]) - 1 if all(len(g) == len(gens[-1]) for g in gens) else 0)
+                if len(w) != len(gens):
+                    M["C15"] = f"agent_trend has {len(w)} entries for {len(gens)} generations"
+        except Exception as ex_:  # noqa
+            M["C15"] = f"trend utilities fail on the result: {type(ex_).__name__}: {ex_}"
     # C17: best cost never gets worse (only meaningful for classes on the elitist list; recorded for all)
     bests = [(max if ismax else min)(a.cost for a in g) for g in gens]
     worse = [k for k in range(1, len(bests)) if ((bests[k] < bests[k - 1]) if ismax else (bests[k] > bests[k - 1])) and not close(bests[k], bests[k - 1])]
@@ -482,6 +501,29 @@ def run_pair(case):
             ref = K(C(**case["cfg_kw"])).optimize(fresh())
             if second.model_dump() != ref.model_dump():
                 rec["monitors"]["C08"] = "optimize() on an instance used before on a task sharing the search space differs from a fresh instance"
+        elif sc == "reuse_int":
+            # the earlier run was on an all-integer task of the same dimension (dtypes of cached arrays must not leak)
+            o = K(C(**case["cfg_kw"]))
+            try:
+                o.optimize(fresh(kind="discrete"))
+            except Exception:  # noqa  (many optimizers do not run on integer-coded tasks: not this scenario's business)
+                rec["skip"] = "first run on the integer-coded task failed"
+                return rec
+            second = o.optimize(fresh())
+            ref = K(C(**case["cfg_kw"])).optimize(fresh())
+            if second.model_dump() != ref.model_dump():
+                rec["monitors"]["C08"] = "optimize() on an instance used before on an integer-coded task differs from a fresh instance"
+        elif sc == "repro_bad":
+            outs = []
+            for pre in (1, 2):
+                np.random.seed(pre)
+                np.random.random(3 * pre)
+                try:
+                    outs.append(repr(K(C(**case["cfg_kw"])).optimize(fresh()).model_dump()))
+                except Exception as ex_:  # noqa
+                    outs.append(f"{type(ex_).__name__}")
+            if outs[0] != outs[1]:
+                rec["monitors"]["C07"] = f"two runs with seed {case['seed']} differ (one may have been silently unseeded): {outs[0][:60]} / {outs[1][:60]}"
         elif sc == "reuse_dim":
             # the earlier run was on a task of another dimension: the second call must still be a valid call
             o = K(C(**case["cfg_kw"]))
@@ -505,6 +547,7 @@ def run_pair(case):
             kw1 = dict(case["cfg_kw"])
             kw2 = dict(case["cfg_kw"])
             kw2["population_size"] = int(kw1["population_size"] * 2)
+            kw2["max_cycles"] = kw1["max_cycles"] + 2          # the stop criteria are re-configured too
             for k_, v_ in case.get("alt", {}).items():
                 kw2[k_] = v_
             try:
@@ -525,6 +568,9 @@ def run_pair(case):
                 rec["monitors"]["C18"] = f"run after a second set_config_parameters differs from a fresh optimizer (sizes {sa} vs {sb})"
                 if sa != sb:
                     rec["monitors"]["C10"] = f"generation sizes {sa} after re-configuration, expected {sb}"
+                if len(a.rates) != len(b.rates):
+                    rec["monitors"]["C04"] = (f"after re-configuration (max_cycles {kw1['max_cycles']} -> {kw2['max_cycles']}) the run executes "
+                                              f"{len(a.rates)} cycles, a fresh optimizer {len(b.rates)}")
         elif sc == "duality_reuse":
             o = K(C(**case["cfg_kw"]))
             a = o.optimize(fresh("max"))
@@ -662,7 +708,7 @@ def _dispatch_inner(case):
     try:
         if case.get("scenario") == "xproc":
             return run_xproc([case])[0]
-        if case.get("scenario") in ("repro", "reuse", "setcfg", "duality", "reuse2", "repro0", "setcfg2", "duality_reuse", "reuse3", "reuse_dim", "duality_nan"):
+        if case.get("scenario") in ("repro", "reuse", "setcfg", "duality", "reuse2", "repro0", "setcfg2", "duality_reuse", "reuse3", "reuse_dim", "duality_nan", "reuse_int", "repro_bad"):
             return run_pair(case)
         return run_case(case)
     except Exception as ex:  # harness failure
@@ -730,6 +776,15 @@ def build_cases(tier, seed):
                           kind="cont3", direction="min", seed=seeds[0], mode=None, scenario="reuse2", scale=1.0, stopping="es"))
         cases.append(dict(opt=opt, cfg_name=cfg_name, cfg_kw=dict(base, max_cycles=6, early_stopping=dict(patience=1, min_delta=0.5)),
                           kind="cont3", direction="min", seed=seeds[0], mode=None, scenario="reuse3", scale=1.0, stopping="es"))
+        # an earlier run of exactly one cycle; an earlier run on an integer-coded task of the same dimension
+        cases.append(dict(opt=opt, cfg_name=cfg_name, cfg_kw=dict(base, max_cycles=1), kind="cont3", direction="min", seed=seeds[0], mode=None,
+                          scenario="reuse", scale=1.0, stopping="mc1"))
+        cases.append(dict(opt=opt, cfg_name=cfg_name, cfg_kw=dict(base, max_cycles=3), kind="cont3", direction="min", seed=seeds[0], mode=None,
+                          scenario="reuse_int", scale=1.0))
+        # integer seeds that numpy refuses: two runs are refused alike or agree
+        for bad_seed in (-5, 2 ** 32):
+            cases.append(dict(opt=opt, cfg_name=cfg_name, cfg_kw=dict(base, max_cycles=2), kind="cont3", direction="min", seed=bad_seed, mode=None,
+                              scenario="repro_bad", scale=1.0))
         # relational scenarios
         for scn in ("repro", "reuse", "setcfg", "duality", "reuse2", "repro0", "setcfg2", "duality_reuse", "reuse3", "reuse_dim"):
             kw = dict(base, max_cycles=3)
